@@ -46,7 +46,8 @@ def get_mos_files(
         try:
             contents = page['Contents']
         except KeyError:
-            break
+            # a page without any object; later pages may still have some
+            continue
 
         for file in contents:
             key = file['Key']
